@@ -60,6 +60,9 @@ class ExcelInPython:
             
             return isinstance(other, self.__class__)
         
+        def __ne__(self, other: Any) -> bool:
+            return not self.__eq__(other)
+        
         def __lt__(self, other: Any) -> bool:
             if isinstance(other, (datetime.date, datetime.datetime)):
                 # Ну вот так excel себя чувствует, пустая ячейка меньше любой даты
